@@ -241,6 +241,16 @@ def focused(tier):
            {"A": klass([[0.5, 1.0], None], [[1.0, 2.0], [2.0, 1.0]], route=matrix([[0.0, 1.0], [1.0, 0.0]]), prio=1),
             "B": klass([[0.75, 1.5], None], [[1.0, 2.0], [2.0, 1.0]], route=matrix([[0.0, 1.0], [0.5, 0.0]]), prio=0)})
         out[-1]["max_events"] = E + 6
+    # scenario (round 5): two high-priority customers blocked towards a pre-emptive node; the first moves in during a
+    # release chain and pre-empts the customer that has just started, the second stays blocked and later belongs to the knot
+    mk("scenario: pre-emption during a release chain, second blocked customer in the later knot",
+       [node(c=1, cap=1, preempt="resume"), node(c=2, cap=0), node(c=1, cap=0)],
+       {"H": klass([None, {"script": [3.0, 2.0, BIGT]}, None], [[5.0, 4.0], [1.0], [1.0]], prio=0,
+                   route=matrix([[0.0, 1.0, 0.0], [1.0, 0.0, 0.0], [0.0, 0.0, 1.0]])),
+        "L": klass([{"script": [1.0, 1.0, BIGT]}, {"script": [12.0, BIGT]}, {"script": [200.0, BIGT]}], [[10.0, 8.0], [100.0, 50.0], [1.0]], prio=1,
+                   route=matrix([[0.0, 0.0, 0.0], [1.0, 0.0, 0.0], [0.0, 0.0, 1.0]]))})
+    out[-1]["max_events"] = 40
+    out[-1]["D"] = 3
     mk("multi-server partial blockage", [node(c=2, cap=0), node(c=1, cap=0), node(c=1)],
        {"A": klass([[0.5, 0.25], None, None], [[1.0, 2.0], [2.0, 1.0], [1.0]], route=matrix([[0.0, 0.5, 0.5], [1.0, 0.0, 0.0], [0.0, 0.0, 0.0]]))})
     return out
